@@ -4,6 +4,7 @@ From Coq Require Import NArith List Bool.
 From AV Require Import Generated.Table Spec.Utf8 Spec.Vt Spec.Strip Spec.Sgr Model.Base Model.Utf8parse Model.Parser Model.Strip
   Model.Wincon Proofs.TableFacts Proofs.ParserSim Proofs.StripMachine Proofs.StripSim Proofs.StripStr Proofs.WinconRuns
   Generated.StripFn Proofs.StripGen Generated.WinconFn Proofs.WinconGen.
+From AV Require Import Spec.Io Model.Stream Generated.StreamFn Proofs.StreamGen.
 Import ListNotations.
 Local Open Scope N_scope.
 
@@ -195,3 +196,11 @@ Theorem c03_translated_wincon_chunked :
     flatten (concat itss) = flatten its /\
     merge_runs (concat itss) = merge_runs its.
 Proof. exact translated_wincon_chunked. Qed.
+
+(* the strip stream fed chunk by chunk: the translated functions of crates/anstream/src/strip.rs are the
+   stream model, for any operation sequence (hence for write_all per chunk) *)
+Theorem c03_translated_stream_is_model :
+  forall b ops x,
+  match g_ss_run x ops with Some (x1, rs) => Some (ss_state x1, ss_raw x1, rs) | None => None end
+  = run_ops b MStrip (ss_state x) (ss_raw x) ops.
+Proof. exact translated_stream_is_model. Qed.
